@@ -618,6 +618,13 @@ impl<Store: StorageData> DbImpl<Store> {
             self.aliases.remove_key(&mut self.storage, &old_alias)?;
         }
 
+        if let Some(other_id) = self.aliases.value(&self.storage, alias)? {
+            self.undo_stack.push(Command::InsertAlias {
+                id: other_id,
+                alias: alias.clone(),
+            });
+        }
+
         self.undo_stack.push(Command::RemoveAlias {
             alias: alias.clone(),
         });
